@@ -209,10 +209,14 @@ def lenbound(ctx):
                     continue
                 # no assignment of the attribute after the guard
                 after = g.reachable(guard)
-                late = [w for w in ws if g.node_of(w.stmt) is not None and g.node_of(w.stmt).id in after and g.node_of(w.stmt) is not guard]
+                allw = [w for w in effects.direct_writes(ctx, fi) if w.attr == attr and ci.qual in w.classes and norm(w.recv) == 'self'
+                        and not (w.kind == 'aug' and isinstance(w.stmt.op, ast.Sub))]
+                late = [w for w in allw if g.node_of(w.stmt) is not None and g.node_of(w.stmt).id in after and g.node_of(w.stmt) is not guard]
                 ok = not late
-                obs.append(Ob('SA-LENBOUND', key, ok, ctx.loc(fi, guard.ast),
-                              '' if ok else 'self.%s is modified again after its bound check' % attr))
+                obs.append(Ob('SA-LENBOUND', key, ok, ctx.loc(fi, late[0].stmt if late else guard.ast),
+                              '' if ok else 'self.%s is increased again (`%s`) after its bound check `%s`: the value that is packed into the one-byte field is not '
+                              'the value that was checked, so a name that passes the check can still overflow the field and struct.pack fails at write time'
+                              % (attr, norm(late[0].stmt), norm(guard.ast))))
     if ninst < 2:
         raise AnalysisError('anchor-vanished: length-typed one-byte fields (%d)' % ninst)
     return obs
